@@ -21,6 +21,12 @@ DEEP = [
     ('schedule', 'u2_create', 'u2_jobs', 'complete', 'u2_commit'),
     ('schedule', 'complete', 'u2_create', 'u2_jobs', 'u2_commit'),   # parent already terminal (failed or succeeded)
 ]
+# an attempt that was withdrawn stays in the attempts table; the job's next attempt may run on another instance
+STALE = [
+    ('schedule', 'unschedule', 'schedule', 'deactivate'),
+    ('schedule', 'unschedule', 'schedule', 'deactivate', 'complete'),
+    ('schedule', 'unschedule', 'schedule', 'started', 'deactivate'),
+]
 KNOWN = 'uncommitted-child-readied-by-parent-completion'
 
 ASSUMPTIONS = [
@@ -59,12 +65,21 @@ def standard_run(R, pid, asserts, default_class, deep=DEEP, quick_alphabet=CORE,
         run_bmc_property(R, pid, sizes, n1=sizes.J - 1, g1=sizes.G - 1, alphabet=[a for a in quick_alphabet if not a.startswith('u2_')],
                          depth=2, asserts=asserts, classify=classify, extra_seqs=(), commit=commit, prefix_ops=('schedule',),
                          workers=int(os.environ.get('VERIF_WORKERS', '12')))
+    stale_pass(R, pid, asserts, classify, commit)
     if not quick:
         # second pass: every sequence of THREE operation kinds over the core alphabet on the smaller world
         small = model.Sizes(J=3, G=2, U=2, I=1, A=2, T=2, IC=1)
         run_bmc_property(R, pid, small, n1=2, g1=1, alphabet=quick_alphabet, depth=3, asserts=asserts, classify=classify,
                          extra_seqs=(), commit=commit, workers=int(os.environ.get('VERIF_WORKERS', '14')), timeout_ms=300000)
         R.bounds['second_pass'] = {'sizes': small.as_dict(), 'bmc_depth': 3, 'alphabet': quick_alphabet}
+
+
+def stale_pass(R, pid, asserts, classify, commit=True, seqs=STALE):
+    """named scenarios on TWO instances: an attempt is withdrawn, the job runs again elsewhere, then something happens to
+    the first instance (reports and deactivations that concern a stale attempt of a job whose current attempt is elsewhere)"""
+    two = model.Sizes(J=2, G=2, U=2, I=2, A=2, T=2, IC=1)
+    run_bmc_property(R, pid, two, n1=2, g1=1, alphabet=[], depth=0, asserts=asserts, classify=classify, extra_seqs=seqs,
+                     commit=commit, workers=int(os.environ.get('VERIF_WORKERS', '12')))
 
 
 BMC_TEXT = (' Decided by z3: bounded model checking from the EMPTY database with the real front-end Python (create_batch, '
